@@ -149,9 +149,11 @@ def deser (O : Oracles) (opts : DeserOpts) (ign : Bool) : FieldDecl â†’ PyVal â†
     if v.isNone && ign then .ok v
     else dMap (mapE (fun (kv : PyVal Ã— PyVal) =>
       -- `res[deser(key)] = deser(value)`: Python evaluates the right-hand side first
-      -- deserialize_map does not pass keep_undefined on: inside a Map it is the default (True)
-      bindE (deser O { opts with keepUndefined := true } false vf kv.2) fun v' =>
-      bindE (deser O { opts with keepUndefined := true } false kf kv.1) fun k' => .ok (k', v'))) v
+      -- deserialize_map hands the caller's keep_undefined on to the VALUES (since /repo 73883e4; before, a Map
+      -- value was read with the default True).  The KEY is read with the default; a key document is hashable,
+      -- hence never an object, and only an object document looks at the flag: modelled with the same `opts`
+      bindE (deser O opts false vf kv.2) fun v' =>
+      bindE (deser O opts false kf kv.1) fun k' => .ok (k', v'))) v
   | .struct c fields defaults, v =>
     if v.isNone && ign then .ok v
     else if c.inline then
